@@ -626,6 +626,9 @@ func (d *badgerNodeDB) Finalize(roots []node.Root) error { // nolint: gocyclo
 	// Go through all roots and prune them based on whether they are finalized or not.
 	maybeLoneNodes := make(map[hash.Hash]bool)
 	notLoneNodes := make(map[hash.Hash]bool)
+	// Nodes removed by finalized roots and nodes (re-)created by non-finalized roots.
+	removedByFinalized := make(map[hash.Hash]bool)
+	createdByDiscarded := make(map[hash.Hash]bool)
 
 	for rootHash := range rootsMeta.Roots {
 		// TODO: Consider colocating updated nodes with the root metadata.
@@ -650,6 +653,7 @@ func (d *badgerNodeDB) Finalize(roots []node.Root) error { // nolint: gocyclo
 			for _, n := range updatedNodes {
 				if n.Removed {
 					maybeLoneNodes[n.Hash] = true
+					removedByFinalized[n.Hash] = true
 				} else {
 					notLoneNodes[n.Hash] = true
 				}
@@ -662,6 +666,7 @@ func (d *badgerNodeDB) Finalize(roots []node.Root) error { // nolint: gocyclo
 			for _, n := range updatedNodes {
 				if !n.Removed {
 					maybeLoneNodes[n.Hash] = true
+					createdByDiscarded[n.Hash] = true
 				}
 			}
 
@@ -694,12 +699,26 @@ func (d *badgerNodeDB) Finalize(roots []node.Root) error { // nolint: gocyclo
 	}
 
 	// Clean any lone nodes.
+	//
+	// A node created by a non-finalized root may be a re-creation of a node that already existed
+	// in an earlier version and is still referenced (unchanged) by a finalized root. As removing
+	// it at this version would also hide the earlier copy, such nodes must be kept.
+	var prevTx *badger.Txn
+	if version > 0 {
+		prevTx = d.db.NewTransactionAt(versionToTs(version-1), false)
+		defer prevTx.Discard()
+	}
 	for h := range maybeLoneNodes {
 		if notLoneNodes[h] {
 			continue
 		}
 
 		key := nodeKeyFmt.Encode(&h)
+		if prevTx != nil && createdByDiscarded[h] && !removedByFinalized[h] {
+			if _, err := prevTx.Get(key); err == nil {
+				continue
+			}
+		}
 		if err := versionBatch.Delete(key); err != nil {
 			return err
 		}
